@@ -355,7 +355,16 @@ impl Property for C12 {
             }),
             2 => (0..n, ops_strategy()).prop_map(move |(h, ops)| Case::Opts { header: names3[h].clone(), ops }),
             3 => (any::<bool>(), proptest::collection::vec(any::<u16>(), 1..9), proptest::bool::weighted(0.5)).prop_map(|(cpp, picks, derives)| {
-                let text = if cpp { crate::zoo::render(crate::zoo::ZOO_CPP, &picks) } else { crate::zoo::render(crate::zoo::ZOO_C, &picks) };
+                let text = if cpp {
+                    // totality also covers C++ the book calls unsupported
+                    let mut t = crate::zoo::render(crate::zoo::ZOO_CPP, &picks);
+                    if picks.first().map(|p| p % 5 == 0).unwrap_or(false) {
+                        t.push_str(&crate::zoo::render(crate::zoo::ZOO_CPP_UNSUPPORTED, &picks[..1]).replace("0", "x9"));
+                    }
+                    t
+                } else {
+                    crate::zoo::render(crate::zoo::ZOO_C, &picks)
+                };
                 let mut flags: Vec<String> = vec!["--formatter=none".into(), "--no-include-path-detection".into()];
                 if derives {
                     for f in ["--with-derive-default", "--with-derive-hash", "--with-derive-partialeq", "--with-derive-ord", "--impl-debug", "--impl-partialeq", "--generate-inline-functions"] {
